@@ -116,6 +116,15 @@ def stepC03 : List String → String
               | .val (some .overspend) => "err overspend" | .panic => "panic")
           | none => "bad-op")
       | _, _ => "bad-op"
+  | ["rcr", c] => match hexBytes? c with
+      | some b => (match ElaVerif.CoinbaseTotal.registerCRKey true b with
+          | .val none => "later" | .val (some .codeNil) => "err codenil" | .val (some .invalidCode) => "err invalidcode"
+          | .panic => "panic")
+      | none => "bad-op"
+  | ["ina", _variant, c] => match hexBytes? c with
+      | some b => (match ElaVerif.CoinbaseTotal.crcArbitersMN true b with
+          | .val true => "later" | .val false => "reject-len" | .panic => "panic")
+      | none => "bad-op"
   | _ => "bad-op"
 
 def main : IO Unit := runPure stepC03
